@@ -944,10 +944,10 @@ impl<T: Storage> Raft<T> {
         let mci = self.mut_prs().maximal_committed_index().0;
         if self.r.raft_log.maybe_commit(mci, self.r.term) {
             let (self_id, committed) = (self.id, self.raft_log.committed);
-            self.mut_prs()
-                .get_mut(self_id)
-                .unwrap()
-                .update_committed(committed);
+            // A leader that applied its own removal has no progress for itself.
+            if let Some(pr) = self.mut_prs().get_mut(self_id) {
+                pr.update_committed(committed);
+            }
             return true;
         }
         false
@@ -1078,8 +1078,12 @@ impl<T: Storage> Raft<T> {
                 );
             }
             let self_id = self.id;
-            let pr = self.mut_prs().get_mut(self_id).unwrap();
-            if pr.maybe_update(index) && self.maybe_commit() && self.should_bcast_commit() {
+            // A leader that applied its own removal has no progress for itself.
+            let updated = match self.mut_prs().get_mut(self_id) {
+                Some(pr) => pr.maybe_update(index),
+                None => false,
+            };
+            if updated && self.maybe_commit() && self.should_bcast_commit() {
                 self.bcast_append();
             }
         }
